@@ -645,7 +645,7 @@ func commentSkipLoop(u *Universe, h *ssa.BasicBlock) bool {
 		switch x := v.(type) {
 		case *ssa.Field:
 			st, ok := x.X.Type().Underlying().(*types.Struct)
-			return ok && st.Field(x.Field).Name() == "Type" && namedTypeIs(x.X.Type(), "pkg/syntax", "Token")
+			return ok && fieldName(st.Field(x.Field)) == "Type" && namedTypeIs(x.X.Type(), "pkg/syntax", "Token")
 		case *ssa.UnOp:
 			if fa, ok := x.X.(*ssa.FieldAddr); ok && x.Op == token.MUL {
 				return fieldAddrName(fa) == "Token.Type"
